@@ -193,6 +193,66 @@ def program_directories(ctx, root, decoy, leg):
     ctx.legs.append("program-directories")
 
 
+MACRO_LIBS = {
+    # a helper macro ABOVE the library form of its source, used by the library body
+    "a": ("(define-syntax check (syntax-rules () ((check e) (+ e 100))))\n(define-library (g a) (import (scheme base)) (export va) (begin (define va (check 5))))", "va", 105),
+    # an unrelated library with a PROCEDURE of that name
+    "b": ("(define-library (g b) (import (scheme base)) (export vb) (begin (define (check x) (+ x 8)) (define (twice x) (* 2 x)) (define vb (+ (check 1) (twice 0)))))", "vb", 9),
+    # a library that exports a macro of its own besides a value, and one that imports it
+    "ma": ("(define-library (g ma) (export vma twice) (begin (define-syntax twice (syntax-rules () ((twice e) (cons e e)))) (define vma 1)))", "vma", 1),
+    # (the importer does not USE the macro: on the pinned tree a library body cannot expand a macro it imported - it is applied as a procedure and faults,
+    # deterministically, whatever happened before)
+    "ub": ("(define-library (g ub) (import (scheme base) (g ma)) (export vub) (begin (define vub (+ vma 6))))", "vub", 7),
+    # a source holding two libraries; the requested one is the second and has a macro of its own
+    "two": ("(define-library (g other) (export vo) (begin (define vo 3)))\n(define-library (g two) (import (scheme base)) (export vtwo) "
+            "(begin (define-syntax check (syntax-rules () ((check e) (+ e 200)))) (define-syntax twice (syntax-rules () ((twice e) 'macro))) (define vtwo (check 2))))", "vtwo", 202),
+}
+
+
+def macro_libraries(ctx, root, decoy, leg):
+    """healthy libraries that involve MACROS (a helper macro above the library form, a macro exported by a library, a macro local to the second
+    library of a source) next to a healthy library that has procedures of the same names: every import succeeds and binds the value the library
+    defines, in every order of the imports, also on a second interpreter created afterwards on the same thread"""
+    names = list(MACRO_LIBS)
+    d = os.path.join(root, "macrolibs")
+    os.makedirs(os.path.join(d, "g"), exist_ok=True)
+    for n, (src, _, _) in MACRO_LIBS.items():
+        open(os.path.join(d, "g", n + ".sld"), "w").write(src + "\n")
+    jobs, meta = [], []
+    for mode in ("file", "registered"):
+        if mode == "file":
+            spec = {"stdlib": False, "natives": False, "progdir": d}
+        else:
+            spec = {"stdlib": False, "natives": False, "progdir": os.path.join(root, "empty"), "libs": [{"name": ["g", n], "src": MACRO_LIBS[n][0]} for n in names]}
+        for h in itertools.permutations(names, 3):
+            for second in (None, "b", "ub"):
+                steps = [{"new": spec}]
+                # the imports first (an interpreter refuses imports once an expression has been evaluated), then the values
+                steps += [{"it": 0, "src": "(import (g %s))" % x} for x in h] + [{"it": 0, "src": MACRO_LIBS[x][1]} for x in h]
+                if second:
+                    steps += [{"new": spec}, {"it": 1, "src": "(import (g %s))" % second}, {"it": 1, "src": MACRO_LIBS[second][1]}]
+                jobs.append({"id": "c14m", "interps": [], "steps": steps, "fuel": 50000}); meta.append((mode, list(h), second))
+    recs = core.run_jobs(jobs, leg, timeout=900, tag="c14m", env_extra={"__cwd": decoy})
+    for (mode, order, second), rec in zip(meta, recs):
+        if rec is None or "steps" not in rec:
+            ctx.inconclusive_cases += 1; continue
+        st = rec["steps"]
+        pairs = [(x, st[1 + i], st[4 + i]) for i, x in enumerate(order)] + ([(second, st[8], st[9])] if second else [])
+        good = True
+        for x, imp, val in pairs:
+            ctx.evaluations += 1
+            ki, vi = core.outcome(imp)
+            kv, vv = core.outcome(val)
+            if ki != "ok" or kv != "ok" or vv != {"i": MACRO_LIBS[x][2]}:
+                ctx.violation({"what": "a healthy library that involves macros (or stands next to one) did not import, or bound another value than its body defines", "kind": "macro-libraries",
+                               "mode": mode, "imports": order, "second_interpreter": second, "failed_at": "(g %s)" % x, "import_outcome": vi if ki != "ok" else "ok",
+                               "value": vv, "expected": MACRO_LIBS[x][2], "dedupe": "ml|%s|%s|%s" % (mode, x, ki)}, {"mode": mode, "imports": order})
+                good = False; break
+        if good:
+            ctx.count("macro_library_histories"); ctx.nontriv("ml|%s|%s|%s" % (mode, "/".join(order), second))
+    ctx.legs.append("macro-libraries")
+
+
 def resupply(ctx, root, decoy, leg):
     """a library that has been imported (or has failed to import, or was missing) is supplied again with another definition, through
     register_library_factory or through an appended LibraryLoader: the next import follows the definition that is current then - also the import of
@@ -463,6 +523,7 @@ def run(tier, seed):
     ctx.legs.append(leg)
     program_directories(ctx, root, decoy, leg)
     resupply(ctx, root, decoy, leg)
+    macro_libraries(ctx, root, decoy, leg)
     for (mode, n, adj, kinds, hist) in meta[:3] + meta[-2:]:
         ctx.sample({"mode": mode, "imports": {NAMES[i]: [NAMES[j] for j in adj[i]] for i in range(n)}, "kinds": list(kinds), "histories": len(hist)})
     shutil.rmtree(root, ignore_errors=True)
